@@ -74,6 +74,9 @@ class Parser(IdlVisitor):
         self.import_stack = import_stack + (Path(os.path.abspath(idl)),)
         self.imported = imported if imported is not None else set()
         self.type_decls: list[BaseType] = []
+        # declarations and references of imported files: resolved and checked by their own (nested) parser
+        self.imported_type_decls: list[BaseType] = []
+        self.imported_type_refs: list[TypeReference] = []
         self.field_decls: list[BaseField] = []
         self.type_refs: list[TypeReference] = []
         self.file_imports: list[FileReference] = []
@@ -500,11 +503,11 @@ class Parser(IdlVisitor):
                     import_stack=self.import_stack,
                     imported=self.imported
                 ).parse()
-                self.type_decls += imported_type_decls
-                self.type_refs += type_refs
+                self.imported_type_decls += imported_type_decls
+                self.imported_type_refs += type_refs
             except Parser.ParsingExceptionList as e:
-                self.type_decls += e.type_decls
-                self.type_refs += e.type_refs
+                self.imported_type_decls += e.type_decls
+                self.imported_type_refs += e.type_refs
                 self.errors += e.items
 
     def _position(self, ctx) -> Position:
@@ -635,5 +638,6 @@ class Parser(IdlVisitor):
                 self.position
             ))
         if self.errors:
-            raise Parser.ParsingExceptionList(self.errors, self.type_decls, self.type_refs, self.file_imports, ast)
-        return self.type_decls, self.type_refs, self.file_imports, ast
+            raise Parser.ParsingExceptionList(self.errors, self.imported_type_decls + self.type_decls,
+                                              self.imported_type_refs + self.type_refs, self.file_imports, ast)
+        return self.imported_type_decls + self.type_decls, self.imported_type_refs + self.type_refs, self.file_imports, ast
